@@ -71,6 +71,9 @@ func lastrand() int64                   { return 0 }
 func ncalls(name string) int            { return len(name) }
 func lastval(name string) Z             { return Z(len(name)) }
 func lastret(name string) Z             { return Z(len(name)) }
+func nchanges(name string) int          { return len(name) }
+func lastold(name string) Z             { return Z(len(name)) }
+func lastnew(name string) Z             { return Z(len(name)) }
 func haskey[K comparable, V any](m map[K]V, k K) bool { _, ok := m[k]; return ok }
 func statuscode(e error) uint32         { return 0 }
 `
